@@ -22,6 +22,7 @@
 //!
 //! Wall-clock time is never an upper bound anywhere; the delays in the cases are scheduling
 //! hints for the peer thread, and whether a wait really happened is read from the E2 log.
+mod addr;
 mod common;
 mod fdpass;
 mod order;
@@ -90,6 +91,10 @@ pub fn run(ctx: &Ctx) {
         // up to ~1 s per case (SYN retransmission) when the listener's queue is full
         ctx.run_prop("inprogress", ctx.cases(8, 120), trycalls::inprogress_strategy(), tracked(&max_delta, trycalls::run_inprogress));
         lap("inprogress");
+    }
+    if on("addr") {
+        addr::run(ctx);
+        lap("addr");
     }
     if on("order") {
         ctx.run_prop("order", ctx.cases(150, 5000), order::order_strategy(), tracked(&max_delta, order::run_order));
